@@ -544,7 +544,7 @@ def replay(prop, path):
     mod = importlib.import_module(f"props.{prop.lower()}")
     data = json.load(open(path))
     if isinstance(data, dict) and data.get("python_O") and not sys.flags.optimize:
-        os.execv(sys.executable, [sys.executable, "-O"] + sys.argv)
+        os.execv(sys.executable, [sys.executable, "-O", os.path.join(ROOT, "run.py")] + sys.argv[1:])
     case = dec(data["case"]) if "case" in data else dec(data)
     open_known, _ = load_known(prop)
     ctx = Ctx(open_known)
